@@ -403,7 +403,7 @@ def _harness_class(grammar_type: str):
         default_grammar_type = Discipline.GrammarType(grammar_type)
 
         def __init__(self, model: CoupledSystem, index: int, defaults: dict, jac_format: str = "dense", keep_log: bool = False,
-                     reject_non_finite: bool = False, state_solved: bool = True):
+                     reject_non_finite: bool = False, state_solved: bool = True, coupling_jacobian_factor: float = 1.0):
             super().__init__(name=model.disc_names[index])
             self.reject_non_finite = reject_non_finite
             self.model = model
@@ -422,6 +422,9 @@ def _harness_class(grammar_type: str):
                 self.io.residual_to_state_variable = {r: w}
                 self.io.state_equations_are_solved = state_solved
             self.state_solved = state_solved
+            # != 1: "simplified" analytic Jacobian (partials w.r.t. the coupling inputs multiplied by the factor): Newton-type
+            # MDAs then converge linearly instead of quadratically; never use it where the derivatives are the subject
+            self.coupling_jacobian_factor = coupling_jacobian_factor
             self.io.input_grammar.update_from_data({n: np.zeros(model.sizes[n]) for n in in_names})
             self.io.output_grammar.update_from_data({n: np.zeros(s) for n, s in out_sizes.items()})
             self.io.input_grammar.defaults.update({n: np.array(defaults[n], dtype=float) for n in in_names})
@@ -448,6 +451,11 @@ def _harness_class(grammar_type: str):
         def _compute_jacobian(self, input_names=(), output_names=()):
             self.n_lin += 1
             jac = self.model.partials(self.index, self.io.data)
+            if self.coupling_jacobian_factor != 1.0:
+                for row in jac.values():
+                    for name in row:
+                        if name in self.model.producer:
+                            row[name] = row[name] * self.coupling_jacobian_factor
             if self.state is not None:
                 w, r, diag = self.state
                 size = self.model.sizes[w]
@@ -472,20 +480,21 @@ def _harness_class(grammar_type: str):
 
 
 def HarnessDiscipline(model, index, defaults, jac_format="dense", grammar_type="SimpleGrammar", keep_log=False, reject_non_finite=False,  # noqa: N802
-                      state_solved=True):
+                      state_solved=True, coupling_jacobian_factor=1.0):
     """Create the gemseo discipline of ``model.payload['discs'][index]``."""
-    return _harness_class(grammar_type)(model, index, defaults, jac_format, keep_log, reject_non_finite, state_solved)
+    return _harness_class(grammar_type)(model, index, defaults, jac_format, keep_log, reject_non_finite, state_solved, coupling_jacobian_factor)
 
 
 def build_disciplines(model: CoupledSystem, defaults: dict, grammar_type: str = "SimpleGrammar", keep_log: bool = False,
-                      reject_non_finite: bool = False, state_solved: bool = True) -> list:
+                      reject_non_finite: bool = False, state_solved: bool = True, coupling_jacobian_factor: float = 1.0) -> list:
     """One gemseo discipline per payload discipline, in payload (list) order.
 
     ``defaults`` gives the default value of every variable (design inputs and coupling start
     values): ``{name: list of floats}``.
     """
     return [
-        HarnessDiscipline(model, i, defaults, d.get("jac", "dense"), grammar_type, keep_log, reject_non_finite, state_solved)
+        HarnessDiscipline(model, i, defaults, d.get("jac", "dense"), grammar_type, keep_log, reject_non_finite, state_solved,
+                          coupling_jacobian_factor)
         for i, d in enumerate(model.payload["discs"])
     ]
 
@@ -517,6 +526,8 @@ def coupled_systems(
     input_scales: bool = False,
     acyclic: bool = False,
     more_self_coupled: bool = False,
+    two_cycles: bool = False,
+    tail: bool = False,
     q_range: tuple[float, float] = (0.05, 0.3),
     max_size: int = 3,
 ):
@@ -539,14 +550,24 @@ def coupled_systems(
         input_scales: allow design inputs whose whole effect is scaled by 1e-10 or 1e-13 (badly scaled unit).
         acyclic: feed-forward system: weakly coupled disciplines only, no cycle, no self-coupling.
         more_self_coupled: self-coupled disciplines one time in two instead of one in four / six.
+        tail: 4-5 disciplines, a ring of two followed by a chain of 2-3 weakly coupled disciplines, each reading its
+            predecessor (outputs that lag several sweeps behind the cycle in Jacobi-like executions).
+        two_cycles: 4-5 disciplines, two rings of two, the second fed by the first (two inner MDAs at different
+            levels of an MDAChain), plus possibly a weakly coupled fifth discipline.
     """
-    n = draw(st.integers(min_disc, max_disc))
+    n = draw(st.integers(min_disc, max_disc)) if not (two_cycles or tail) else draw(st.integers(4, 5))
     if all_strong is None:
         all_strong = draw(st.integers(0, 2)) == 0
     if nonlinear is None:
         nonlinear = draw(st.integers(0, 2)) == 0
     # groups: list of lists of discipline ids 0..n-1 (ids are positions in the topological layout)
-    if acyclic:
+    if tail:
+        all_strong = False
+        groups = [[0, 1]] + [[i] for i in range(2, n)]
+    elif two_cycles:
+        all_strong = False
+        groups = [[0, 1], [2, 3]] + ([[4]] if n == 5 else [])
+    elif acyclic:
         all_strong = False
         groups = [[i] for i in range(n)]
     elif all_strong:
@@ -581,12 +602,17 @@ def coupled_systems(
                 for j in g:
                     if i != j and draw(st.integers(0, 3)) == 0:
                         reads[i].add(j)
-        elif not acyclic and draw(st.integers(0, 3)) <= (1 if more_self_coupled else 0):
+        elif not acyclic and not tail and draw(st.integers(0, 3)) <= (1 if more_self_coupled else 0):
             reads[g[0]].add(g[0])  # self-coupled singleton
     for i in range(n):
         for j in range(n):
             if group_of[j] < group_of[i] and draw(st.integers(0, 2)) > 0:
                 reads[i].add(j)
+    if tail:
+        for i in range(2, n):
+            reads[i].add(i - 1)  # the chain
+    if two_cycles and not (reads[2] | reads[3]) & {0, 1}:
+        reads[2].add(1)  # the second ring depends on the first one
     if not any(reads.values()):
         reads[n - 1].add(0)  # a coupled system has at least one coupling variable
     if all_strong and n >= 2 and draw(st.integers(0, 5)) <= (2 if more_self_coupled else 0):
